@@ -7,6 +7,7 @@ pub mod c06;
 pub mod c07;
 pub mod c08;
 pub mod c09;
+pub mod c11;
 pub mod c12;
 pub mod c13;
 pub mod c14;
@@ -29,6 +30,7 @@ pub fn spec(id: &str) -> Option<PropertySpec> {
         "C07" => Some(c07::spec()),
         "C08" => Some(c08::spec()),
         "C09" => Some(c09::spec()),
+        "C11" => Some(c11::spec()),
         "C12" => Some(c12::spec()),
         "C13" => Some(c13::spec()),
         "C14" => Some(c14::spec()),
@@ -40,4 +42,4 @@ pub fn spec(id: &str) -> Option<PropertySpec> {
     }
 }
 
-pub const ALL: [&str; 16] = ["C01", "C02", "C03", "C04", "C05", "C06", "C07", "C08", "C09", "C12", "C13", "C14", "C15", "C16", "C17", "C19"];
+pub const ALL: [&str; 17] = ["C01", "C02", "C03", "C04", "C05", "C06", "C07", "C08", "C09", "C11", "C12", "C13", "C14", "C15", "C16", "C17", "C19"];
